@@ -34,6 +34,8 @@ func init() {
 			rulePatternsEnterThroughTheParser(c, "R11")
 			ruleCharClasses(c, "R12", "syntax.MatchDigit", "syntax.MatchWord")
 			ruleConfiguredInterceptorsUsed(c, "R13")
+			ruleChainWalkEndsAtTheRoot(c, "R14")
+			ruleAdjacencyIsDecidedOnTheText(c, "R15")
 		},
 	})
 }
